@@ -89,6 +89,9 @@ def show(e, full=False):
         return "$"
     if k == "par":
         return "(" + show(e[1], full) + ")"
+    if k == "incfile":
+        # ("incfile", file name, value): an unsized integer read from a data file (the `+ 0` drops incbin's size)
+        return '(incbin("%s") + 0)' % e[1]
     if k == "neg":
         return "-" + p(e[1], L_UNARY)
     if k == "not":
@@ -212,6 +215,8 @@ def ev(e, env):
         return ("str", e[1], "utf8")
     if k == "par":
         return ev(e[1], env)
+    if k == "incfile":
+        return ("int", e[2], None)
     if k == "pc":
         return ("int", env.pc(), None)
     if k == "var":
